@@ -21,6 +21,9 @@ ties       : (A) codec   — the real _MIR_get_thunk/_MIR_redirect_thunk/_MIR_ge
                  (set_interface callback choosing a different interface per module), with an
                  allocator that clobbers caller-saved registers; results, buffers, call logs must coincide
                  between interfaces and between call orders; item->addr sampled throughout.
+             (E) real programs — the repository's C tests (c-tests/new, lacc, andrewchambers_c; not the property-insn
+                 tests) compiled by a c2m built from the current tree and run with -ei/-eg/-el/-eb: exit code and
+                 output must coincide.
              Failures that reproduce with eager generation alone against the interpreter are C01's
              (counted in the evidence, not reported here)."""
 import os, re, sys, json, glob, shutil, subprocess, resource, struct
@@ -697,15 +700,21 @@ def run_c2m(c2m, src, flag, level):
 
 
 def stage_real(c2m):
-    """the repository's own C test programs compiled by c2m and executed under -ei (interpreter), -eg (eager
+    """(quick: one random optimisation level per file; thorough: all four)
+    the repository's own C test programs compiled by c2m and executed under -ei (interpreter), -eg (eager
     generation), -el (lazy generation), -eb (lazy bb generation): exit code and stdout must coincide"""
     files = []
     for d in ("new", "lacc", "andrewchambers_c"):
         files += sorted(glob.glob(os.path.join(REPO, "c-tests", d, "*.c")))
     files = [f for f in files if not os.path.exists(f + ".disable")]
+    # the property excludes programs using property insns (lazy bb generation specialises on them by design)
+    nprop = len(files)
+    files = [f for f in files if "__builtin_prop" not in open(f, errors="replace").read()]
+    nprop -= len(files)
     rng = ck.rng
-    todo = [(f, rng.below(4)) for f in files]
-    st = {"files": len(todo), "compared": 0, "skipped_not_compiling": 0, "differ_eager_vs_interp": 0, "differ_lazy_or_bb_only": 0}
+    todo = [(f, lv) for f in files for lv in ([rng.below(4)] if quick else [0, 1, 2, 3])]
+    st = {"files": len(todo), "excluded_property_insn_tests": nprop, "compared": 0, "c2m_compile_errors": 0,
+          "differ_eager_vs_interp": 0, "differ_lazy_or_bb_only": 0, "unstable_output_discarded": 0}
 
     def one(job):
         f, lv = job
@@ -715,8 +724,8 @@ def stage_real(c2m):
     with ThreadPoolExecutor(max_workers=14) as ex:
         for f, lv, r in ex.map(one, todo):
             ref = r["-ei"]
-            if all(x[0] not in (0,) and not x[1] for x in r.values()) and len({x[0] for x in r.values()}) == 1:
-                st["skipped_not_compiling"] += 1
+            if all(x[0] != 0 and not x[1] and "error" in x[2] for x in r.values()):
+                st["c2m_compile_errors"] += 1
                 continue
             st["compared"] += 1
             key = lambda x: (x[0], x[1])
@@ -725,6 +734,16 @@ def stage_real(c2m):
                 continue
             bad = [k for k in ("-el", "-eb") if key(r[k]) != key(r["-eg"])]
             if bad:
+                # programs printing indeterminate values (padding, addresses) differ from run to run: a difference
+                # counts only if the interpreter and eager generation reproduce their output and the interface does not
+                stable = True
+                for _ in range(2):
+                    r2 = {k: run_c2m(c2m, f, k, lv) for k in ("-ei", "-eg", bad[0])}
+                    if key(r2["-ei"]) != key(ref) or key(r2["-eg"]) != key(ref) or key(r2[bad[0]]) == key(ref):
+                        stable = False
+                if not stable:
+                    st["unstable_output_discarded"] += 1
+                    continue
                 st["differ_lazy_or_bb_only"] += 1
                 if nrep < 3:
                     nrep += 1
@@ -821,7 +840,7 @@ def main():
     nprog, nev = stage_programs()
     ck.stage("programs", programs=nprog, evaluations=nev)
     nreal = 0
-    if not quick:
+    if True:
         c2m = ck.cc("c03_c2m", [os.path.join(REPO, f) for f in ("mir.c", "mir-gen.c", "c2mir/c2mir.c", "c2mir/c2mir-driver.c")],
                     flags=["-O1", "-DNDEBUG", "-w"])
         if c2m is None:
